@@ -56,8 +56,14 @@ def scenario(x, p):
             choice[s] = x.choice('src_' + s, opts)
         else:
             choice[s] = p.get('fixed', 'none')
-    fault = x.choice('fault', ['none', 'both', 'missing', 'badext'])
-    fsec = x.choice('fault_sec', list(free)) if fault != 'none' else None
+    fault = x.choice('fault', ['none', 'both', 'missing', 'badext',
+                               'badout'])
+    fsec = x.choice('fault_sec', list(free)) \
+        if fault not in ('none', 'badout') else None
+    if fault == 'badout':
+        # OUT itself is not a cart file name
+        filename = '/w/out.p8.txt' if out_kind == 'out.p8.png' else \
+            '/w/out.lua'
     args = argparse.Namespace(filename=filename, lua_path=None,
                               lua_format=False, lua_minify=False,
                               optimize_tokens=False)
@@ -98,6 +104,8 @@ def scenario(x, p):
                 exists.add(fn)
                 will_fail = True
     exists -= gone
+    if fault == 'badout':
+        will_fail = True
     written = []
     loaded = []
     empties = []
@@ -212,7 +220,8 @@ def cli(x, p):
     expected = {}
     will_fail = False
     fault = x.choice('fault', p.get('faults', ['none']))
-    fsec = x.choice('fault_sec', list(free)) if fault != 'none' else None
+    fsec = x.choice('fault_sec', list(free)) \
+        if fault not in ('none', 'badout') else None
     for sec in SECTIONS:
         if sec not in free:
             expected[sec] = 'prev'
@@ -239,7 +248,12 @@ def cli(x, p):
             expected[sec] = 'empty'
         else:
             expected[sec] = 'prev'
-    argv.append('/w/out.p8')
+    out_name = '/w/out.p8'
+    if fault == 'badout':
+        out_name = '/w/out.p8.bak'
+        files[out_name] = b'not a cart'
+        will_fail = True
+    argv.append(out_name)
     x.out('argv', ' '.join(argv))
     fs = clikit.MemFS(x, files)
     rc, exc = clikit.run_main(argv)
@@ -249,7 +263,8 @@ def cli(x, p):
                 Or(exc is not None, rc != 0))
         x.check('and leave OUT untouched',
                 And(len(fs.opened_for_write) == 0,
-                    fs.files.get('/w/out.p8') == prev))
+                    fs.files.get('/w/out.p8') == prev,
+                    fs.files.get(out_name) == files.get(out_name)))
         return
     x.tag('ok')
     x.check('build succeeds', And(exc is None, rc == 0),
@@ -285,7 +300,7 @@ def cli(x, p):
 
 
 Q = {'_budget': 900}
-FAULTS = ['none', 'both', 'missing', 'badext']
+FAULTS = ['none', 'both', 'missing', 'badext', 'badout']
 HARNESSES = [
     Harness('scenario', scenario,
             quick=[dict(Q, free=['lua', 'gfx']), dict(Q, free=['map', 'sfx']),
